@@ -101,5 +101,9 @@ func NewValueObject(fields map[string]*Value) *Value {
 }
 
 func (self ValueObject) IntoAnyObject() *Value {
-	return NewValueAnyObject(self.FieldsInternal)
+	fields := make(map[string]*Value, len(self.FieldsInternal))
+	for key, field := range self.FieldsInternal {
+		fields[key] = field
+	}
+	return NewValueAnyObject(fields)
 }
